@@ -30,7 +30,8 @@ META = {
     'level_note': ('partial for Float, Decimal, Currency, DecimalString, Pickle, JSON, Uuid: repr(float), Decimal, pickle, json, '
                    'UUID are uninterpreted tokens; only the glue is proved, end-to-end behaviour is covered by the '
                    'differential run and the oracle (sampling).'),
-    'rule': ('case = (column type, value, write path create/setattr/set/lazy+syncUpdate, class variant eager/lazy/'
+    'rule': ('case = (column type incl. ForeignKey across int/str idType, value, write path create/setattr/set/lazy+syncUpdate/'
+             'expire-assign-read-other-column-read (lazy and eager), class variant eager/lazy/'
              'cacheValues=False, connection cache on/off); distinct = distinct (type, canonical value token, path); '
              'non-trivial = value is not None'),
     'trusted': ['SQLite literal evaluation + column affinity rules as modelled in Model/Codec.lean (evalLit, applyAff, affinityOf; '
@@ -58,15 +59,18 @@ _env = {}
 
 TYPES = ['string', 'unicode', 'int', 'tinyInt', 'smallInt', 'mediumInt', 'bigInt', 'bool', 'float', 'dateTime',
          'date', 'time', 'timestamp', 'decimal', 'currency', 'decimalString', 'enum', 'blob', 'pickle', 'uuid',
-         'json', 'fkInt']
+         'json', 'fkInt', 'fkStr', 'fkIntS']
+STR_IDS = ['007', '1e3', ' 5', 'x', '12', "o'k", '-0', '0x10']
 ENUM_VALUES = ['a', "b'c", 'x y', '', 'é', 'ü"%_\\', "''", 'NULL']
 COLNAME = {'string': 'StringCol', 'unicode': 'UnicodeCol', 'int': 'IntCol', 'tinyInt': 'IntCol', 'smallInt': 'IntCol',
            'mediumInt': 'IntCol', 'bigInt': 'IntCol', 'bool': 'BoolCol', 'float': 'FloatCol', 'dateTime': 'DateTimeCol',
            'date': 'DateCol', 'time': 'TimeCol', 'timestamp': 'DateTimeCol', 'decimal': 'DecimalCol',
            'currency': 'DecimalCol', 'decimalString': 'DecimalStringCol', 'enum': 'EnumCol', 'blob': 'BLOBCol',
-           'pickle': 'PickleCol', 'uuid': 'UuidCol', 'json': 'JSONCol', 'fkInt': 'ForeignKey'}
+           'pickle': 'PickleCol', 'uuid': 'UuidCol', 'json': 'JSONCol', 'fkInt': 'ForeignKey',
+           'fkStr': 'ForeignKey', 'fkIntS': 'ForeignKey'}
 VARIANTS = ['eager', 'lazy', 'nocachevalues']
-PATHS = ['create', 'setattr', 'set', 'lazy']
+PATHS = ['create', 'setattr', 'set', 'lazy', 'expire-lazy', 'expire-eager']
+FK_TYPES = ('fkInt', 'fkStr', 'fkIntS')
 
 
 def cps(s):
@@ -112,6 +116,13 @@ def env():
         other = type(oname, (SQLObject,), {'_connection': conn, 'n': col.IntCol(default=0)})
         other.createTable()
         others[cache] = (other, [other(n=i) for i in range(3)])
+        sname = sqlo.uniq('C01OtherS')
+
+        class smeta:
+            idType = str
+        others_s = type(sname, (SQLObject,), {'_connection': conn, 'sqlmeta': smeta, 'n': col.IntCol(default=0)})
+        others_s.createTable()
+        others[('s', cache)] = (others_s, [others_s(id=i, n=k) for k, i in enumerate(STR_IDS)])
         for T in TYPES:
             for variant in VARIANTS:
                 name = sqlo.uniq('C01%s%s' % (T.capitalize(), variant.capitalize()))
@@ -119,11 +130,16 @@ def env():
                 class sqlmeta:
                     lazyUpdate = (variant == 'lazy')
                     cacheValues = (variant != 'nocachevalues')
+                if T == 'fkIntS':
+                    sqlmeta.idType = str
                 attrs = {'_connection': conn, 'sqlmeta': sqlmeta}
-                if T == 'fkInt':
+                if T in ('fkInt', 'fkIntS'):
                     attrs['v'] = col.ForeignKey(oname, default=None)
+                elif T == 'fkStr':
+                    attrs['v'] = col.ForeignKey(sname, default=None)
                 else:
                     attrs['v'] = mk[T]()
+                attrs['w'] = col.IntCol(default=7)      # a second column: reading it reloads an expired object
                 cls = type(name, (SQLObject,), attrs)
                 try:
                     cls.createTable()
@@ -134,7 +150,8 @@ def env():
                     # other column types are still checked (the strings with quotes go through StringCol)
                     ENUM_VALUES[:] = ['a', 'x y', '']
                     name = sqlo.uniq('C01EnumPlain%s' % variant.capitalize())
-                    attrs = {'_connection': conn, 'sqlmeta': sqlmeta, 'v': col.EnumCol(enumValues=list(ENUM_VALUES), default=None)}
+                    attrs = {'_connection': conn, 'sqlmeta': sqlmeta, 'v': col.EnumCol(enumValues=list(ENUM_VALUES), default=None),
+                             'w': col.IntCol(default=7)}
                     cls = type(name, (SQLObject,), attrs)
                     cls.createTable()
                 classes[(T, variant, cache)] = cls
@@ -143,7 +160,7 @@ def env():
 
 
 def attr(T):
-    return 'vID' if T == 'fkInt' else 'v'
+    return 'vID' if T in FK_TYPES else 'v'
 
 
 # ----------------------------------------------------------------------------------------------- canonical tokens
@@ -194,7 +211,7 @@ def tok(v, T=None):
     if t is uuid.UUID:
         return 'u' + cps(str(v))
     if isinstance(v, SQLObject):
-        return 'o%d' % v.id
+        return 'o%d' % v.id if type(v.id) is int else 'O' + cps(v.id)
     return 'x'
 
 
@@ -438,7 +455,7 @@ def cross_pool(e, cache):
             D.date(2020, 1, 2), D.time(3, 4, 5, 6), D.time(0, 0), Dec('1.5'), Dec('5'), objs[0], objs[1], uuid.UUID(int=5), [1], (1, 2),
             D.timedelta(seconds=3700, microseconds=5), {'a': 1}, '2020-01-02', '2021-02-30', '03:04:05', '03:04:05.5', '3:4:5.1234567',
             '2020-01-02 03:04:05', '2020-1-2', 2 ** 63, 2 ** 53 + 1, 2 ** 54, -2 ** 63 - 1, 10 ** 25, float('inf'), float('nan'), 'a\x00b',
-            Dec('12345678901234567890.123'), Dec('NaN'), Dec('1E+3'), bytearray(b'ab'), 3.0]
+            Dec('12345678901234567890.123'), Dec('NaN'), Dec('1E+3'), bytearray(b'ab'), 3.0] + list(e['others'][('s', cache)][1][:2])
 
 
 def in_domain(T, v):
@@ -482,8 +499,10 @@ def in_domain(T, v):
         return t is uuid.UUID
     if T == 'json':
         return t in (dict, list, str, int, float, bool)
-    if T == 'fkInt':
+    if T in ('fkInt', 'fkIntS'):
         return t is int and 1 <= v <= 3
+    if T == 'fkStr':
+        return t is str and v in STR_IDS
     return False
 
 
@@ -507,7 +526,7 @@ def vclass(T, v):
                 return 'int not exactly representable as double'
         return t.__name__
     if num is not None and not (INT64_MIN <= num <= INT64_MAX) and \
-            (t is int or T in ('int', 'tinyInt', 'smallInt', 'mediumInt', 'bigInt', 'fkInt')):
+            (t is int or T in ('int', 'tinyInt', 'smallInt', 'mediumInt', 'bigInt', 'fkInt', 'fkIntS')):
         return 'integer beyond int64'
     if t is Dec:
         if not v.is_finite():
@@ -551,8 +570,10 @@ def domain_values(T, ctx, n):
         return [uuid.UUID(int=0), uuid.UUID(int=2 ** 128 - 1), uuid.UUID(int=5)] + [uuid.UUID(int=rng.getrandbits(128)) for _ in range(n // 4)]
     if T == 'json':
         return JSON_CORPUS + [gen_json(rng) for _ in range(n // 2)]
-    if T == 'fkInt':
+    if T in ('fkInt', 'fkIntS'):
         return [1, 2, 3]
+    if T == 'fkStr':
+        return list(STR_IDS)
     return []
 
 
@@ -564,8 +585,10 @@ def ref_cell(T, v):
         return ('null', None)
     if T in ('string', 'unicode', 'enum'):
         return ('text', v)
-    if T in ('int', 'tinyInt', 'smallInt', 'mediumInt', 'bigInt', 'fkInt'):
+    if T in ('int', 'tinyInt', 'smallInt', 'mediumInt', 'bigInt', 'fkInt', 'fkIntS'):
         return ('integer', v)
+    if T == 'fkStr':
+        return ('text', v)
     if T == 'bool':
         return ('integer', 1 if v else 0)
     if T == 'float':
@@ -609,6 +632,9 @@ def wipe(cls):
     conn.cache.clear()
 
 
+_rowid = [0]
+
+
 def run_case(e, T, v, path, variant, cache):
     """returns dict with outcome of the write and of every read path on the real code"""
     cls = e['classes'][(T, variant, cache)]
@@ -617,13 +643,29 @@ def run_case(e, T, v, path, variant, cache):
     out = {'write': 'ok', 'reads': {}, 'rid': None}
     obj = None
     wipe(cls)
+    _rowid[0] += 1
+    idkw = {'id': 'r%d' % _rowid[0]} if T == 'fkIntS' else {}
     try:
         if path == 'create':
-            obj = cls(**{a: v})
+            obj = cls(**dict(idkw, **{a: v}))
         else:
-            obj = cls(**{a: None})
+            obj = cls(**dict(idkw, **{a: None}))
             out['rid'] = obj.id
-            if path == 'setattr':
+            if path in ('expire-lazy', 'expire-eager'):
+                # expire, assign, read a DIFFERENT column (reloads the row), read the assigned one; then flush
+                obj.expire()
+                setattr(obj, a, v)
+                views = []
+                obj.w
+                views.append(('after-expire-assign-reload', getattr(obj, a)))
+                if cls.sqlmeta.lazyUpdate:
+                    obj.syncUpdate()
+                    views.append(('after-syncUpdate', getattr(obj, a)))
+                    obj.w
+                    views.append(('after-syncUpdate-other-column', getattr(obj, a)))
+                for n, val in views:
+                    out['reads'][n] = ('ok', val)
+            elif path == 'setattr':
                 setattr(obj, a, v)
             elif path == 'set':
                 obj.set(**{a: v})
@@ -631,6 +673,7 @@ def run_case(e, T, v, path, variant, cache):
                 if variant == 'lazy':
                     setattr(obj, a, v)
                     out['pending_view'] = ('ok', getattr(obj, a))
+                    out['reads']['pending'] = ('ok', getattr(obj, a))
                     obj.syncUpdate()
                 else:
                     obj.set(**{a: v})
@@ -811,6 +854,27 @@ def oracle(ctx, e, T, v, path, variant, cache, out, cls):
                     ctx.oracle_fail('C01:%s:%s does not find %s' % (col, n, vc),
                                     '%s: row holding %r is not found by %s (result %r)' % (col, v, n, c), desc)
                     return
+        if T in FK_TYPES and v is not None and out.get('rid') is not None:
+            # the key must lead to the referenced row, and the row must be found through the instance
+            try:
+                cls._connection.cache.clear()
+                tgt = cls.get(out['rid']).v
+                res = (type(tgt.id).__name__, tgt.id)
+            except Exception as ex:
+                res = 'raises %s' % type(ex).__name__
+                tgt = None
+            if res != (type(v).__name__, v):
+                ctx.oracle_fail('C01:%s:traversal of %s' % (col, vc),
+                                '%s: row written with key %r: following the reference gives %r' % (col, v, res), desc)
+                return
+            try:
+                n = cls.selectBy(v=tgt).count()
+            except Exception as ex:
+                n = 'raises %s' % type(ex).__name__
+            if n != 1:
+                ctx.oracle_fail('C01:%s:selectBy(instance) does not find %s' % (col, vc),
+                                '%s: row referencing %r is not found by selectBy(v=<instance>) (result %r)' % (col, v, n), desc)
+                return
     else:
         names = list(vals)
         for n in names[1:]:
@@ -942,6 +1006,8 @@ def run(ctx):
         cache = (idx % 3 != 2)
         if isinstance(v, tuple) and v and v[0] == 'cross':
             v = cross_pool(e, cache)[v[1]]
+        if T in FK_TYPES and hasattr(v, 'sqlmeta') and (type(v.id) is str) != (T == 'fkStr'):
+            continue      # an instance of a class the key does not reference: misuse, not a value of the column
         plan.append((T, v, idx, cache))
         lines.append('w %s %s' % (type_token(T), model_in(v, T)))
     rstrings = read_stream_cases(ctx)
@@ -975,7 +1041,11 @@ def run(ctx):
         # ---- the real round trips: every write path on a rotating variant
         for pi, path in enumerate(PATHS):
             variant = 'lazy' if path == 'lazy' and (idx % 2 == 0) else VARIANTS[(idx + pi) % 3]
-            if path != 'lazy' and variant == 'lazy':
+            if path == 'expire-lazy':
+                variant = 'lazy'
+            elif path == 'expire-eager':
+                variant = 'eager' if idx % 2 == 0 else 'nocachevalues'
+            elif path != 'lazy' and variant == 'lazy':
                 # eager paths on a lazy class only become visible after sync: covered by the 'lazy' path; use eager here
                 variant = 'eager'
             try:
